@@ -131,6 +131,7 @@ type World struct {
 	hubAddr string
 	hubSrv  *http.Server
 	ctrl    int
+	pprof   int
 	exited  chan struct{}
 
 	mu     sync.Mutex
@@ -312,7 +313,8 @@ func (w *World) StartCore() error {
 	}
 	args = append(args, w.opts.CoreFlags...)
 	cmd := exec.Command(bin, args...)
-	cmd.Env = append(os.Environ(), "VERIF_HARNESS="+w.hubAddr, "GORACE=halt_on_error=0 log_path="+filepath.Join(w.Dir, "race"))
+	w.pprof = freePort()
+	cmd.Env = append(os.Environ(), "VERIF_HARNESS="+w.hubAddr, fmt.Sprintf("VERIF_PPROF=127.0.0.1:%d", w.pprof), "GORACE=halt_on_error=0 log_path="+filepath.Join(w.Dir, "race"))
 	w.coreLog = filepath.Join(w.Dir, fmt.Sprintf("core%d.log", w.coreN))
 	lf, err := os.Create(w.coreLog)
 	if err != nil {
@@ -412,6 +414,18 @@ func (w *World) CoreCrash() string {
 		}
 	}
 	return "core exited: " + w.CoreLogTail(1500)
+}
+
+// Goroutines returns the core's goroutine dump (debug=2).
+func (w *World) Goroutines() string {
+	resp, err := http.Get(fmt.Sprintf("http://127.0.0.1:%d/debug/pprof/goroutine?debug=2", w.pprof))
+	if err != nil {
+		return ""
+	}
+	defer resp.Body.Close()
+	var b bytes.Buffer
+	b.ReadFrom(resp.Body)
+	return b.String()
 }
 
 // RaceReports returns data race reports written by a -race core.
